@@ -93,7 +93,7 @@ func runC03(p *Prog, r *Report) {
 		okps := len(ps) == 1 && len(waits) == 1 && !CanPrecede(blockReach(rm.fn), waits[0].In, ps[0].In)
 		if okps {
 			dom := map[string][]int64{"recv.receiveWait": {0, 1}, "recv.reqID": {0, 1, 5}}
-			res := ComparePred(ps[0].In.Block(), dom, []string{"!recv.s.closed", "!recv.closed", "!recv.failNoPeers"}, func(env map[string]int64) bool {
+			res := ComparePred(predBlock(ps[0]), dom, []string{"!recv.s.closed", "!recv.closed", "!recv.failNoPeers"}, func(env map[string]int64) bool {
 				return env["recv.receiveWait"] != 0 || env["recv.reqID"] == 0
 			})
 			okps = res.OK && res.Undec == ""
